@@ -274,7 +274,10 @@ def run(ctx):
     # shared clause: the samples handed to the caller are the ones the engine recorded (C09.FETCH-PY)
     from . import c09 as _c09
     borrow(ctx, "C03", _c09.rule_fetch_py, ctx.py)
+    # shared clause: the Euler passes -- a flagged entry is skipped as a whole, every other entry receives every exchange (C01.PHASE)
+    from . import c01 as _c01
+    borrow(ctx, "C03", _c01.rule_phase, tu, cxa.Effects(tu))
     from .. import lints
-    lints.run(ctx, "C03", ctx.py, ["kinetics", "rdsystem"], truth_floor=24)
+    lints.run(ctx, "C03", ctx.py, ["kinetics", "rdsystem", "librdengine", "rdscript", "simulate"], truth_floor=24)
     ctx.assume("equality with the recorded initial value is decided only as 'never written after Init' "
                "(t = 0 processing is C14)")
